@@ -227,6 +227,28 @@ def execute(row, seed, version=None, share=False):
                     raise
                 holder['forced_exc'] = e
             run.settle()
+            # ... and a listener may itself write: an early outgoing listener, registered last, that answers packet 199 by
+            # force-writing packet 198 from inside its callback (the write lock is re-entrant for this).  Every listener sees
+            # both packets exactly once, the inner packet's whole dispatch nested inside the outer one's early stage.
+            quiet = not any(l.get('dc') or l.get('late') for nm in ('EI', 'OI', 'EO', 'OO') for l in row[nm])
+            if st == 'play' and quiet and not holder['sc'].client_closed and 'forced_exc' not in holder:
+                mark = len(log)
+                nlog = holder['nlog'] = []
+
+                def nesting(pkt):
+                    nlog.append(pkt.keep_alive_id)
+                    if pkt.keep_alive_id == 199:
+                        c.write_packet(sb.play.KeepAlivePacket(keep_alive_id=198), force=True)
+                c.register_packet_listener(nesting, sb.play.KeepAlivePacket, outgoing=True, early=True)
+                try:
+                    c.write_packet(sb.play.KeepAlivePacket(keep_alive_id=199), force=True)
+                except BaseException as e:      # noqa
+                    if type(e).__name__ == 'Poison':
+                        raise
+                    holder['forced_exc'] = e
+                run.settle()
+                holder['nested_log'] = log[mark:]
+                del log[mark:]
     run.go(scenario)
     sc = holder['sc']
     run.forced_exc = holder.get('forced_exc')
@@ -240,6 +262,10 @@ def execute(row, seed, version=None, share=False):
             wire.append('?' + p['t'])
     closed = sc.client_closed
     run.comp = bool(holder['c'].options.compression_enabled)
+    run.nested = None
+    if 'nested_log' in holder:
+        run.nested = {'log': holder['nested_log'], 'n': holder['nlog'], 'wire': [w for w in wire if w in (198, 199)]}
+        wire = [w for w in wire if w not in (198, 199)]
     return run, log, wire, closed, version
 
 
@@ -282,6 +308,22 @@ def run(chk):
             what, key = 'unexpected error %r' % (run_.errors[-1],), 'dispatch:%s:error' % row['st']
         elif getattr(run_, 'forced_exc', None) is not None:
             what, key = 'write_packet(force=True) let %r escape' % (run_.forced_exc,), 'dispatch:%s:forced-write-raises' % row['st']
+        elif run_.nested is not None:
+            # the order law applied to a write made from inside a listener: E = the early outgoing entries the model gives
+            # for the forced packet 99, O = the ordinary ones; 199 and 198 are packets of the same class
+            E = [e for e in row['log'] if e[0] == 'EO' and e[2] == 'RA' and e[3] == 99]
+            O = [e for e in row['log'] if e[0] == 'OO' and e[2] == 'RA' and e[3] == 99]
+            sub = lambda es, occ: [[e[0], e[1], e[2], occ, e[4]] for e in es]       # noqa
+            if 99 in row['wire']:
+                want = sub(E, 199) + sub(E, 198) + sub(O, 198) + sub(O, 199)
+                want_n, want_w = [199, 198], [198, 199]
+            else:       # an early outgoing listener suppresses packets of this class: the nesting listener is never reached
+                want, want_n, want_w = sub(E, 199), [], []
+            got = run_.nested
+            if got['log'] != want or got['n'] != want_n or got['wire'] != want_w:
+                what = ('a listener that force-writes packet 198 while packet 199 is being dispatched: calls %r (expected %r), the nesting '
+                        'listener saw %r (expected %r), wire %r (expected %r)' % (got['log'], want, got['n'], want_n, got['wire'], want_w))
+                key = 'dispatch:%s:nested-write' % row['st']
         if what:
             chk.violation(key, 'state %s, history %s (batch=%s), listeners EI=%s OI=%s EO=%s OO=%s at protocol %d: %s'
                           % (row['st'], row['hist'], row['batch'], json.dumps(row['EI']), json.dumps(row['OI']),
